@@ -363,7 +363,9 @@ fn run_transport(
     let mut clients_to_remove = Vec::new();
     let mut metadata = HashMap::new();
     let mut next_token = START_TOKEN;
-    let mut buffered_pmsgs = VecDeque::with_capacity(buffer_limit);
+    // `buffer_limit` is `usize::MAX` when no buffer size is configured, so it cannot be used as a
+    // capacity to pre-allocate.
+    let mut buffered_pmsgs = VecDeque::new();
 
     loop {
         let _span = trace_span!("transport");
